@@ -1,8 +1,11 @@
 package hpke
 
 import (
+	"crypto/cipher"
+
 	"github.com/cloudflare/circl/dh/x25519"
 	"github.com/cloudflare/circl/dh/x448"
+	"github.com/cloudflare/circl/kem"
 )
 
 // C11 (schedules): a private key shared by two goroutines.  Both call Public() for the first time
@@ -45,3 +48,59 @@ func ZZ_C11_hpke_xkem_Public_two_threads_x25519() { zzXKEMPublicTwoThreads(dhkem
 
 //zz: prop=C11 tier=quick backend=bv use=xkeygen timeout=120
 func ZZ_C11_hpke_xkem_Public_two_threads_x448() { zzXKEMPublicTwoThreads(dhkemx448hkdfsha512) }
+
+// C11 (histories): the result of a setup call depends only on its arguments and the suite / keys the
+// sender or receiver was created with - not on earlier setup calls made on the same object.  After
+// SetupPSK (or SetupAuthPSK) a base-mode Setup on the same Sender / Receiver succeeds exactly as
+// on a fresh object.  KEM operations, HKDF and the AEAD constructor are uninterpreted (sets
+// "kemfree", "hkdfrec"), psk / psk_id symbolic.
+
+//zz:replace (hpke.dhKemBase).EncapsulateDeterministically set=kemfree
+func zzStubEncapDet(k dhKemBase, pkr kem.PublicKey, seed []byte) ([]byte, []byte, error) {
+	return zzUF("kem.enc", 32, seed), zzUF("kem.ss", 32, seed), nil
+}
+
+//zz:replace (hpke.dhKemBase).Decapsulate set=kemfree
+func zzStubDecap(k dhKemBase, skr kem.PrivateKey, ct []byte) ([]byte, error) {
+	return zzUF("kem.ss2", 32, ct), nil
+}
+
+//zz:replace (hpke.AEAD).New set=kemfree
+func zzStubAEADNew(a AEAD, key []byte) (cipher.AEAD, error) { return &zzAEAD{}, nil }
+
+type zzSeedReader struct{}
+
+func (zzSeedReader) Read(p []byte) (int, error) { zzFill("seed", p); return len(p), nil }
+
+//zz: prop=C11 also=C07 tier=quick backend=bv use=kemfree,hkdfrec timeout=300
+func ZZ_C11_hpke_setup_independent_of_earlier_setups() {
+	if !zzSymbolic() {
+		zzModelOnly()
+	}
+	suite := Suite{KEM_X25519_HKDF_SHA256, KDF_HKDF_SHA256, AEAD_AES128GCM}
+	psk, pskID := make([]byte, 32), make([]byte, 2)
+	zzFill("psk", psk)
+	zzFill("pskID", pskID)
+	zzAssumeNote(zzAnd2(psk[0] != 0, pskID[0] != 0), "a PSK and PSK id are given")
+	if zzPick("side", 0, 1) == 0 {
+		used := &Sender{state: state{Suite: suite, info: []byte("info")}}
+		_, _, err := used.SetupPSK(zzSeedReader{}, psk, pskID)
+		zzAssert(err == nil, "PSK-mode setup succeeds")
+		_, _, errUsed := used.Setup(zzSeedReader{})
+		fresh := &Sender{state: state{Suite: suite, info: []byte("info")}}
+		_, _, errFresh := fresh.Setup(zzSeedReader{})
+		zzAssert(errFresh == nil, "base-mode setup on a fresh sender succeeds")
+		zzAssert(errUsed == nil, "base-mode setup after a PSK-mode setup on the same sender succeeds as on a fresh one")
+	} else {
+		enc := make([]byte, 32)
+		zzFill("enc", enc)
+		used := &Receiver{state: state{Suite: suite, info: []byte("info")}}
+		_, err := used.SetupPSK(enc, psk, pskID)
+		zzAssert(err == nil, "PSK-mode setup succeeds")
+		_, errUsed := used.Setup(enc)
+		fresh := &Receiver{state: state{Suite: suite, info: []byte("info")}}
+		_, errFresh := fresh.Setup(enc)
+		zzAssert(errFresh == nil, "base-mode setup on a fresh receiver succeeds")
+		zzAssert(errUsed == nil, "base-mode setup after a PSK-mode setup on the same receiver succeeds as on a fresh one")
+	}
+}
